@@ -177,7 +177,7 @@ def sample_family(rep, progs, fr, k=5):
 
 @check("C04", "exploration")
 def c04(tier, rep):
-    from . import fam_profiles as fp
+    from . import dsl, fam_profiles as fp
 
     if tier == "quick":
         profs = [ds for ds in fp.profiles(4, 3)] + [ds for ds in fp.profiles(3, 4) if max(ds) == 4]
@@ -204,6 +204,23 @@ def c04(tier, rep):
             for mname, kw in modes:
                 p = fp.build(mac, ds, **kw)
                 progs.append(fp.to_prog("%s/%s/%s" % (mac, fp.pname(ds), mname), p, fp.offset_rows()))
+    # token-identical branches that evaluate to different values (a generator that identifies branches by their text confuses them)
+    for mac in ("join", "try_join", "join_async", "try_join_async"):
+        is_try, is_async = mac.startswith("try"), "async" in mac
+        for n in (2, 3, 4):
+            for d in (1, 2, 3):
+                w = "Some(%s)" if is_try and not is_async else ("Ok::<i32, i32>(%s)" if is_try else "%s")
+                init = w % "cnt() * 100"
+                if is_async:
+                    init = "ready(%s)" % init
+                op = "=>" if (is_try and is_async) else ("|>" if (is_try or is_async) else "->")
+                stepv = "ready(Ok::<i32, i32>(v + 1))" if (is_try and is_async) else "v + 1"
+                br = init + "".join(" ~%s |v: i32| { ev(\"t.%d.f\", &v); %s }" % (op, k, stepv) for k in range(1, d))
+                p = dsl.Program(mac, [dsl.Branch(dsl.O(init), [dsl.Op(op, [dsl.O("|v: i32| { ev(\"t.%d.f\", &v); %s }" % (k, stepv))], deferred=True) for k in range(1, d)]) for _ in range(n)], flavour=("Opt" if not is_async else "Res") if is_try else None)
+                # one odd branch in the middle so that the twins are not all the branches
+                if n >= 3:
+                    p.branches[1] = dsl.Branch(dsl.O(init), list(p.branches[1].items) + [dsl.Op(op, [dsl.O("|v: i32| { ev(\"t.9.f\", &v); %s }" % stepv)], deferred=True)])
+                progs.append(fp.to_prog("twins/%s/%d/%d" % (mac, n, d), p, [[0]], cmp="Full" if not is_async else None))
     fr = e2.run_family("c04", progs, extra_header=fp.HEADER)
     judge_family(rep, fr)
     rep.set("profiles", len(profs))
@@ -358,7 +375,8 @@ def run_threads(rep, tier, setname, what, keep=None):
 @check("C08", "model_checking")
 def c08(tier, rep):
     run_threads(rep, tier, "c08", "thread-spawning macro")
-    rep.set("rule", "flat depth profiles n<=3,d<=3 x {join_spawn,try_join_spawn,spawn,try_spawn} x callers {main,w7,unnamed} + nested spawn macros (depth 2, 3); EVERY order of visible operations (baton scheduler over the real generated code, ::std::thread resolved to the vstd shim); per execution: no deadlock, thread name = <caller>_join_<branch index>, distinct threads per active branch, single-active-branch steps on the caller, the caller acts only when every thread of the step has finished; non-trivial program = >= 2 distinct operation orders")
+    run_threads(rep, tier, "c05", "thread-spawning try macro with failing branches", keep=lambda w: "thread" in w or "caller" in w or "deadlock" in w)
+    rep.set("rule", "flat depth profiles n<=3,d<=3 x {join_spawn,try_join_spawn,spawn,try_spawn} x callers {main,w7,unnamed} + nested spawn macros (depth 2, 3) + try programs with EVERY failure subset; EVERY order of visible operations (baton scheduler over the real generated code, ::std::thread resolved to the vstd shim); per execution: no deadlock, thread name = <caller>_join_<branch index>, distinct threads per active branch, single-active-branch steps on the caller, the caller acts only when every thread of the step has finished; non-trivial program = >= 2 distinct operation orders")
 
 
 @check("C03", "model_checking")
